@@ -27,12 +27,43 @@ func generate(h *hx.H) {
 		src := src
 		emit(h, func(*rng.R) docCase { return docCase{W: w0, Src: src, Intent: "any", Tag: "corpus"} })
 	}
-	n := 300
-	for i := 0; i < n; i++ {
+	sw := smallWorld()
+	k := 3
+	if h.Thorough() {
+		k = 4
+	}
+	for _, src := range enumDocs(k) {
+		src := src
+		emit(h, func(*rng.R) docCase { return docCase{W: sw, Src: src, Intent: "any", Tag: "exhaustive"} })
+	}
+	nValid, perMutator, nHostile := 2500, 100, 1500
+	if h.Thorough() {
+		nValid, perMutator, nHostile = 40000, 1500, 30000
+	}
+	for i := 0; i < len(mutators)*perMutator; i++ {
+		i := i
 		emit(h, func(r *rng.R) docCase {
 			w := buildWorld(r.Fork(1), false)
+			for k := 0; k < 20; k++ {
+				if c, ok := mutated(w, r.Fork(uint64(10+k)), i); ok {
+					return c
+				}
+			}
 			d := genValid(w, r.Fork(2), 12)
+			return docCase{W: w, Src: d.render(false), Intent: "valid", Tag: "valid-fallback"}
+		})
+	}
+	for i := 0; i < nValid; i++ {
+		emit(h, func(r *rng.R) docCase {
+			w := buildWorld(r.Fork(1), false)
+			d := genValid(w, r.Fork(2), 6+r.Intn(20))
 			return docCase{W: w, Src: d.render(r.Chance(1, 2)), Intent: "valid", Tag: "valid"}
+		})
+	}
+	for i := 0; i < nHostile; i++ {
+		emit(h, func(r *rng.R) docCase {
+			w := buildWorld(r.Fork(1), false)
+			return docCase{W: w, Src: hostile(w, r.Fork(2)), Intent: "any", Tag: "hostile"}
 		})
 	}
 }
